@@ -516,6 +516,9 @@ func (m *otMap) apply(proxy otProxy, plan *otShapePlan, font *Font, buffer *Buff
 
 				c.lookupIndex = lookupIndex
 				c.lookupMask = lookup.mask
+				// as in setLookupMask: the cached mark attachment base does not outlive a lookup
+				c.lastBase = -1
+				c.lastBaseUntil = 0
 				c.autoZWJ = lookup.autoZWJ
 				c.autoZWNJ = lookup.autoZWNJ
 				c.random = lookup.random
